@@ -1387,37 +1387,153 @@ def correctable(e, v):
     return (c[0] == o[0] and c[2] == o[2] and c[0] in BASES and c[2] in BASES and o[1] in (e['a1'], e['a2'])
             and e['a1'] in BASES and e['a2'] in BASES)
 
+def tri_class(e, v):
+    """class of a correctable SNP: ((ingroup flank, derived allele, ingroup flank), outgroup base)"""
+    c, o = v['context'], v['outgroup_context']
+    og = o[1]
+    der = e['a2'] if e['a1'] == og else e['a1']
+    return ((c[0], der, c[2]), og)
+
+def mis_class(k):
+    (f0, der, f2), og = k
+    return ((f0, og, f2), der)
+
+def write_fux(path, a, b):
+    """the table of misidentification probabilities: the number for (context xyz, outgroup base u) is a[u] + b[y] (multiples of 1/64: exact in binary)"""
+    with open(path, 'w') as f:
+        f.write('# probability of ancestral misidentification\n')
+        for x, y, z, u in itertools.product(BASES, repeat=4):
+            f.write('%s%s%s %s %s\n' % (x, y, z, u, repr(float(a[u] + b[y]))))
+
+def corrected_oracle(ents_by_class, names, proj, a, b, force_pos):
+    """Hernandez, Williamson & Bustamante (2007) eqs. 5-6 solved for the true spectra, class by class: a class c with observed spectrum N_c,
+    probability f_c = a[outgroup base] + b[derived base] of being mistaken (for the class m(c) with derived allele and outgroup base exchanged,
+    whose spectrum is then seen mirrored) contributes ((1 - f_m(c)) N_c - f_c rev(N_c)) / (1 - f_c - f_m(c)); then negative entries are moved to
+    the mirrored entry if force_pos.  Exact."""
+    shape = tuple(p + 1 for p in proj)
+    tot = np.zeros(shape, dtype=object); tot[...] = Fraction(0)
+    usable = 0
+    def fmis(k): return a[k[1]] + b[k[0][1]]
+    for k, ents in ents_by_class.items():
+        N, u = oracle_spectrum(ents, names, proj, True)
+        usable += u
+        fc = fmis(k); fm = fmis(mis_class(k))
+        rev = N[tuple(slice(None, None, -1) for _ in shape)]
+        tot = tot + ((1 - fm) * N - fc * rev) / (1 - fc - fm)
+    if force_pos:
+        neg = np.zeros(shape, dtype=object)
+        for idx in itertools.product(*[range(x) for x in shape]):
+            neg[idx] = min(Fraction(0), tot[idx])
+        tot = tot - neg + neg[tuple(slice(None, None, -1) for _ in shape)]
+    return tot, usable
+
+def tri_wire(e_model, v):
+    """model entry + the flanking-base codes"""
+    if 'context' in v and 'outgroup_context' in v:
+        c, o = v['context'], v['outgroup_context']
+        t = '1,%d,%d,%d,%d,%d' % (allele_code(c[0]), allele_code(c[2]), allele_code(o[0]), allele_code(o[1]), allele_code(o[2]))
+    else:
+        t = '0,0,0,0,0,0'
+    return snp_wire(e_model) + '|' + t
+
 def check_corrected(chk, ctx, ds, dd, od, pops):
-    """Spectrum.from_data_dict_corrected with a table of zero misidentification probabilities is from_data_dict of the SNPs the
-    correction applies to: against direct counting, populations in the order of pop_ids"""
+    """Spectrum.from_data_dict_corrected against the statement, populations in the order of pop_ids: which SNPs the correction applies to
+    (`_data_by_tri`, K `tricls`), the corrected spectrum for tables with zero and with non-zero misidentification probabilities that depend on
+    the outgroup base and on the derived base (so that fux != fxu), with and without force_pos (L3 `corrected_oracle`, K `corrected`), and the
+    total = number of correctable usable SNPs whatever the table"""
     dadi = ctx['dadi']
     if not any('context' in v for v in dd.values()) or not hasattr(dadi.Spectrum, 'from_data_dict_corrected'): return
+    codes = Codes()
+    rngc = common.Rng(ds['params']['bootseed'], 'C13-corrected')
     d = tempfile.mkdtemp(prefix='c13_')
     try:
-        fux = os.path.join(d, 'fux.txt')
-        with open(fux, 'w') as f:
-            f.write('# probability of ancestral misidentification: none\n')
-            for a, b, c, u in itertools.product(BASES, repeat=4):
-                f.write('%s%s%s %s 0.0\n' % (a, b, c, u))
-        ents = [od[k] for k in dd if correctable(od[k], dd[k])]
+        keys = list(dd.keys())
+        by_class = {}
+        for k in keys:
+            if correctable(od[k], dd[k]):
+                by_class.setdefault(tri_class(od[k], dd[k]), []).append(od[k])
+        # ---- which SNPs are kept, in which class (K: the model's `triClassify` vs the real `_data_by_tri`)
+        if have_driver(ctx) and hasattr(dadi.Spectrum, '_data_by_tri'):
+            try:
+                real = dadi.Spectrum._data_by_tri(dd)
+                where = {}
+                for (dtri, ogb), members in real.items():
+                    for k in members: where[k] = (allele_code(dtri[0]), allele_code(dtri[1]), allele_code(dtri[2]), allele_code(ogb))
+                me = impl_entries(dd, pops, codes)
+                out = ask(ctx, 'tricls %s' % ';'.join(tri_wire(e, dd[k]) for e, k in zip(me, keys)))
+                exp = ['k:%d,%d,%d,%d' % where[k] if k in where else 's' for k in keys]
+                if out.startswith('ok ') and out[3:].split(' ') == exp: chk.k_ok('tricls')
+                else: kbad(chk, 'tricls', ds, exp, out[:2000], None, dict(stage='corrected'))
+            except Exception as e:
+                chk.fail('_data_by_tri:raises:%s' % type(e).__name__, '_data_by_tri raises %r' % (e,), dict(kind=ds['kind'], dataset=ds, at=dict(stage='corrected')))
         for ci, cfg in enumerate(ds['params']['configs']):
             names = [pops[p] for p in cfg['sel']]; proj = cfg['proj']; mc = cfg['mask_corners']
-            inp = dict(kind=ds['kind'], dataset=ds, at=dict(stage='corrected', config=ci))
+            for variant in range(3):
+                if variant == 0:
+                    a = {u: Fraction(0) for u in BASES}; b = dict(a); fp = True
+                else:
+                    a = {u: Fraction(int(rngc.integers(0, 9)), 64) for u in BASES}; b = {u: Fraction(int(rngc.integers(0, 9)), 64) for u in BASES}
+                    fp = variant == 1
+                at = dict(stage='corrected', config=ci, variant=variant, table_a={u: str(a[u]) for u in BASES}, table_b={u: str(b[u]) for u in BASES}, force_pos=fp)
+                inp = dict(kind=ds['kind'], dataset=ds, at=at)
+                fux = os.path.join(d, 'fux_%d_%d.txt' % (ci, variant))
+                write_fux(fux, a, b)
+                try:
+                    with np.errstate(all='ignore'), warnings.catch_warnings():
+                        warnings.simplefilter('ignore')
+                        fs = dadi.Spectrum.from_data_dict_corrected(dd, names, proj, fux, force_pos=fp, mask_corners=mc)
+                        fs0 = dadi.Spectrum.from_data_dict_corrected(dd, names, proj, fux, force_pos=fp, mask_corners=False)
+                except Exception as e:
+                    chk.fail('from_data_dict_corrected:raises:%s' % type(e).__name__, 'from_data_dict_corrected raises %r' % (e,), inp); continue
+                ref, usable = corrected_oracle(by_class, names, proj, a, b, fp)
+                chk.l3(('corrected', len(names), mc, usable > 0, usable < len(dd), variant, len(by_class) > 1, bool((np.asarray(ref, dtype=object) < 0).any())))
+                chk.stat('corrected:usable=%s' % ('none' if usable == 0 else 'all' if usable == len(dd) else 'some'))
+                chk.stat('corrected:table=%s' % ('zero' if variant == 0 else 'nonzero,force_pos=%s' % fp))
+                ok, err, scale = unmasked_close(fs, ref)
+                ok0, err0, scale0 = unmasked_close(fs0, ref)
+                if tuple(fs.shape) != tuple(p + 1 for p in proj) or not ok or not ok0 or not np.array_equal(np.ma.getmaskarray(fs), expected_mask(proj, True, mc)) \
+                   or np.ma.getmaskarray(fs0).any() or (fs.pop_ids is not None and list(fs.pop_ids) != names):
+                    chk.fail('from_data_dict_corrected:spectrum%s' % ('' if variant == 0 else ':nonzero-table'),
+                             'the corrected spectrum (pop_ids=%r, projections=%r, mask_corners=%s, force_pos=%s, misidentification a[outgroup base]+b[derived base] with a=%s b=%s) is not the class-by-class solution of the misidentification equations for the %d correctable SNPs: differs by %.3g / %.3g with all entries visible (scale %.3g), pop_ids=%s'
+                             % (names, proj, mc, fp, at['table_a'], at['table_b'], usable, err, err0, scale, fs.pop_ids), inp)
+                tot = float(np.sum(np.asarray(fs0.data)))
+                if abs(tot - usable) > 1e-9 * max(usable, 1):
+                    chk.fail('from_data_dict_corrected:total', 'the corrected spectrum totals %.12g; the correction redistributes the %d correctable usable SNPs and must conserve their number' % (tot, usable), inp)
+                if have_driver(ctx) and int(np.prod([x + 1 for x in proj])) <= 400:
+                    me = impl_entries(dd, names, codes)
+                    w = ';'.join(tri_wire(e, dd[k]) for e, k in zip(me, keys))
+                    out = ask(ctx, 'corrected %d %s %s %s %s' % (fp, ','.join(map(str, proj)), ','.join(str(a[u]) for u in BASES), ','.join(str(b[u]) for u in BASES), w))
+                    cmp_data_model(chk, ds, 'corrected', fs0, out, at)
+        # ---- an outgroup context whose middle base is not the recorded outgroup allele: ValueError, in the model too (K)
+        cand = [k for k in keys if 'outgroup_context' in dd[k] and len(dd[k].get('segregating', ())) == 2]
+        if cand and have_driver(ctx) and rngc.random() < 0.5:
+            k0 = cand[int(rngc.integers(len(cand)))]
+            dd2 = dict(dd); v = dict(dd[k0]); o = v['outgroup_context']
+            v['outgroup_context'] = o[0] + [x for x in BASES if x != o[1]][0] + o[2]; dd2[k0] = v
+            cfg = ds['params']['configs'][0]; names = [pops[p] for p in cfg['sel']]
+            fux = os.path.join(d, 'fux_incons.txt'); write_fux(fux, {u: Fraction(0) for u in BASES}, {u: Fraction(0) for u in BASES})
             try:
-                with np.errstate(all='ignore'):
-                    fs = dadi.Spectrum.from_data_dict_corrected(dd, names, proj, fux, mask_corners=mc)
+                dadi.Spectrum.from_data_dict_corrected(dd2, names, cfg['proj'], fux); got = 'ok'
             except Exception as e:
-                chk.fail('from_data_dict_corrected:raises:%s' % type(e).__name__, 'from_data_dict_corrected raises %r' % (e,), inp); continue
-            ref, usable = oracle_spectrum(ents, names, proj, True)
-            chk.l3(('corrected', len(names), mc, usable > 0, usable < len(dd)))
-            chk.stat('corrected:usable=%s' % ('none' if usable == 0 else 'all' if usable == len(dd) else 'some'))
-            ok, err, scale = unmasked_close(fs, ref)
-            if tuple(fs.shape) != tuple(p + 1 for p in proj) or not ok or not np.array_equal(np.ma.getmaskarray(fs), expected_mask(proj, True, mc)) \
-               or (fs.pop_ids is not None and list(fs.pop_ids) != names):
-                chk.fail('from_data_dict_corrected:spectrum', 'with no ancestral misidentification the corrected spectrum (pop_ids=%r, projections=%r, mask_corners=%s) is not the sum of projections of the %d correctable SNPs: differs by %.3g (scale %.3g), pop_ids=%s'
-                         % (names, proj, mc, usable, err, scale, fs.pop_ids), inp)
+                got = 'err ' + type(e).__name__.lower()
+            me = impl_entries(dd2, names, codes)
+            out = ask(ctx, 'corrected 1 %s 0,0,0,0 0,0,0,0 %s' % (','.join(map(str, cfg['proj'])), ';'.join(tri_wire(e, dd2[k]) for e, k in zip(me, keys))))
+            if out.split(' ')[0:2] == got.split(' ')[0:2] and got == 'err valueerror': chk.k_ok('corrected:inconsistent')
+            else: kbad(chk, 'corrected:inconsistent', ds, got, out[:200], None, dict(stage='corrected', key=k0))
     finally:
         shutil.rmtree(d, ignore_errors=True)
+
+def cmp_data_model(chk, ds, op, fs, out, extra):
+    """all entries of the data of `fs` against the model's exact array"""
+    if not out.startswith('ok '):
+        kbad(chk, op, ds, 'spectrum', out[:300], None, extra); return
+    mdata = nd_float(out[3:].strip()); idata = np.asarray(fs.data, dtype=float)
+    if idata.shape != mdata.shape or not np.all(np.isfinite(idata)):
+        kbad(chk, op, ds, idata, mdata, None, extra); return
+    scale = float(np.max(np.abs(mdata))) if mdata.size else 0.0
+    err = float(np.max(np.abs(idata - mdata))) if mdata.size else 0.0
+    if err <= RTOL * scale + 1e-300: chk.k_ok(op)
+    else: kbad(chk, op, ds, idata, mdata, err, extra)
 
 def gen_dict_dataset(rng, tier, addinfo='none'):
     base = gen_dataset(rng, tier, kind='dict')
@@ -1906,7 +2022,8 @@ def run(chk, ctx):
                 'One call of the composed entry point bootstraps_subsample_vcf per VCF and per complete data set: subsample = 1..all diploids per population with UNEQUAL sizes wherever possible, the dictionary written '
                 'in another order than pop_ids (70%), pop_ids a permutation of the populations or a proper subset of the dictionary keys, a population left out of the dictionary (15%), Nboot 1-2, own chunk size, filter, '
                 'mask_corners, polarized (see the stats pipeline:dict-order=…,sizes=…). count_data_dict for every configuration; from_data_dict_corrected (zero misidentification) on hand-made dictionaries with flanking contexts, '
-                'inner `calls` dictionaries in a per-SNP order. Complete data sets for the statistics. '
+                'inner `calls` dictionaries in a per-SNP order. Complete data sets for the statistics (each population also projected to two sizes m <= n: S, Watterson_theta, theta_L, Tajima_D, pi of the projected spectrum against the expected sub-sample). '
+                'Round 5 extension: the 80 equality patterns among ("-", allele1, allele2, outgroup allele / no key) + 40 (thorough 400) random string triples through count_data_dict / from_data_dict on a one-SNP dictionary; 40 (400) random masks on 1-3-dimensional spectra through Spectrum.fold; from_data_dict_corrected with a zero table and two tables a[outgroup base] + b[derived base] in multiples of 1/64 (force_pos on / off), plus a dictionary with an inconsistent outgroup context (ValueError). '
                 'Every spectrum is built with mask_corners=False and with the configured value; on both objects: clauses, then every statistic (S, Watterson_theta, theta_L, pi, Tajima_D, Zengs_E / S, Fst) '
                 'and derived quantity (sample_sizes, Npop, fold, project, marginalize) one by one with the object compared before/after, then the clauses again on the same object; chunk spectra and bootstraps likewise '
                 '(lines with allele frequency 0 or 1 and population subsets put usable SNPs into the corner entries: see the stats cfg:corner-entries, pure:corners). '
@@ -1916,11 +2033,13 @@ def run(chk, ctx):
         'numpy slicing/broadcasting of _from_count_dict, masked-array arithmetic (corners not accumulated when masked) and Spectrum.fold are tied to the pointwise model by K only',
         'round-off of exp(gammaln ...) and of float accumulation: agreement with the exact model at 1e-9 of the array scale is numerical; `_cached_projection` itself is property C08 (a local copy of the weight is used and compared)',
         "the square root in Tajima's D is a parameter (the harness supplies math.sqrt of the model's exact argument); 1e-8 tolerance there",
-        'the statistics theorems (C13_S, C13_pi, C13_watterson, C13_tajima, C13_fst) are stated for completely called, unprojected data; for projected / folded spectra the statistics are compared with the model numerically (K) only',
+        'the statistics theorems are for completely called data: unprojected (C13_S, C13_pi, C13_watterson, C13_thetaL, C13_tajima, C13_fst, C13_fst_wc_theta) and projected (C13_pi_projection, C13_S_projection, C13_watterson_projection, C13_thetaL_projection, C13_tajima_projection: what the statistic of the projected spectrum is, with counterexample theorems for the ones that are not invariant); for incompletely called / folded spectra the statistics are a linear expectation form only (C13_linear_projection, C13_fst_projection) and otherwise compared with the model numerically (K)',
         'random choices (bootstrap chunks, sub-sampled individuals) are parameters: recorded from the real run and replayed by the model; that numpy draws without replacement is checked on the recorded draws only',
         'the chunk loop is modelled position by position (restart from chunk 0) and tied to the carried-along loop of the code by K; gz/zip inputs are not exercised',
-        'bootstraps_subsample_vcf: the glue (projections from subsample and pop_ids, forwarded arguments) is translated and proved (C13_bsv_*); the pass that threads the draws through all lines (`ddSub`, dictionary semantics for repeated keys) is tied by K (`subsample`, `bsv`), the theorems are per line (C13_bsv_line) and per replicate given per-line calls (C13_bsv_total); an empty sub-sampled dictionary (the code raises: nothing to resample) is outside the statement',
-        'Spectrum.from_data_dict_corrected is exercised numerically only (L3, zero-misidentification table = from_data_dict of the correctable SNPs); the correction formula itself is not part of C13',
+        'bootstraps_subsample_vcf / make_data_dict_vcf(subsample=…): the pass over all lines with dictionary semantics is proved (C13_sub_pass, C13_sub_total, C13_bsv_pass, C13_dict_last_wins/_order) for draws that are given; that numpy.random.choice returns draws of the requested size within range (`DrawsValid`) is a hypothesis checked on the recorded draws (L3 `…:subsample:draw`, `bootstraps_subsample_vcf:draws`); an empty sub-sampled dictionary (the code raises: nothing to resample) is outside the statement',
+        'the decision table of count_data_dict (`polTable`) is obtained by running the polarisation statements on one representative per equality pattern; that the statements cannot distinguish more than equality of the allele strings is enforced syntactically by the translator (closed language) and validated on other strings by K (`polrow`) and L3 (`count_data_dict:polarisation:*`)',
+        'Spectrum.from_data_dict_corrected: the SNP filter, the derived allele, the two combination formulas, the accumulation and force_pos are translated; grouping and the loop over class pairs are modelled (`byContext`, `corrLoop`) and tied by K (`tricls`, `corrected`) for tables whose entries depend on the outgroup base and the derived base; proved: kept SNPs are polarised with the matching derived allele (C13_corrected_kept), conservation of the total per pair, for the whole loop and under force_pos (C13_corrected_pair/_total/_force_pos), identity with from_data_dict for a zero table (C13_corrected_zero); not proved: that the corrected spectrum solves the misidentification equations for a general table (L3 `corrected_oracle` only), reading the table file, multi-character alleles that are substrings of "ACTG" (the membership test of `_data_by_tri` is a substring test; not generated)',
+        'masks: `maskAt` / `foldMask` are the composition constructor ∘ fold in the model (C13_fold_mask, C13_mask, C13_mask_folded, C13_mask_hides_nothing, C13_visible_total); that numpy computes `final_mask` as modelled is K (`foldmask`, `spec`) — the statement shape of `fold` is a T flag',
         'that a statistic leaves the spectrum unchanged is proved for `S` on the statement-level model (copy vs alias of the saved mask, `C13_S_pure`) and is a syntactic scan for the other statistics (`C13_stats_read_only`); numpy masked-array aliasing itself (that `self.mask` is a view, that `self.mask = m` copies values) is validated by K (`sstate`) and by the before/after comparison on the real objects only']
     nv = 50 if tier == 'quick' else 500
     ns = 16 if tier == 'quick' else 150
@@ -1931,7 +2050,7 @@ def run(chk, ctx):
     check_weights(chk, ctx, rng, 60 if tier == 'quick' else 600)
     if have_driver(ctx):
         out = ask(ctx, 'shapes13')
-        if out.strip() == 'ok 1 1 1 1 1 1 1 1 1 1 1': chk.k_ok('shapes13')
+        if out.strip() == 'ok 1 1 1 1 1 1 1 1 1 1 1 1 1 1': chk.k_ok('shapes13')
         else: chk.k_bad('shapes13', dict(kind='shapes'), None, out, None)
     rng2 = common.Rng(ctx['seed'], 'C13-ext')                 # own stream: the data sets below keep their seeds
     check_pol_table(chk, ctx, rng2, 40 if tier == 'quick' else 400)
